@@ -365,6 +365,10 @@ def enumerate_thorough():
 
 
 def corpus():
+    return eternity_stream() + _corpus()
+
+
+def _corpus():
     ps = ["year/2012,2,29/1", "month/2012,1,31/1", "month/2011,12,31/3", "week/2015,12,28/1", "week/2020,12,28/2",
           "day/2000,2,28/2", "year/2000,1,1/400", "weekday/2021,1,3/8", "month/2100,2,1/1", "year/1,1,1/1",
           "month/9999,12,1/1", "day/9999,12,31/1", "year/9998,1,1/2"]
@@ -374,6 +378,23 @@ def corpus():
         u, d, n = p.split("/")
         out += cases_for(rng, u, parse_date(d), int(n))
     return out
+
+
+def eternity_stream():
+    """the sixth unit: what every operation answers for the ETERNITY period / the eternity unit (no calendar
+    statement applies, the oracle is silent; binding for the correspondence)"""
+    E, P = "eternity/-1,-1,-1/-1", "month/2018,1,1/1"
+    out = [f"per {op} {E}" for op in ["stop", "days"] + SIZES + NAMED]
+    for u in ["day", "month", "year", "week", "weekday", "eternity"]:
+        out += [f"per subperiods {E} {u}", f"per offset {E} 1 {u}", f"per offset {E} -2 {u}", f"per offset {E} first-of {u}",
+                f"per offset {E} last-of {u}", f"per offset_rt {E} 1 {u}"]
+    for q in [P, "year/2020,1,1/3", "day/2020,2,29/1", "week/2020,12,28/1", "weekday/2021,1,1/5"]:
+        out += [f"per subperiods {q} eternity", f"per offset {q} 1 eternity", f"per offset {q} first-of eternity", f"per offset {q} last-of eternity",
+                f"per ioffset {q} 1 eternity", f"per ioffset {q} first-of eternity", f"per ioffset {q} last-of eternity",
+                f"per contains {E} {q}", f"per contains {q} {E}"]
+    out += [f"per offset {E} 1", f"per offset {E} -3", f"per contains {E} {E}", f"per intersection {E} 2018,1,1 2018,12,31",
+            f"per intersection {E} - -", f"per intersection {E} 2018,1,1 -", f"per intersection {E} - 2018,1,1"]
+    return [Case(line=l, payload="", claimed=True, tags=("eternity",)) for l in out]
 
 
 def neighbours(case: Case):
